@@ -19,14 +19,15 @@ def check(spec):
     sp, rp = repl.patterns(spec['pair'], motion)
     S, cell = case['structure'], case['cell']
     N = len(S.positions)
+    f = spec.get('f', 1.0)
     try:
-        res, num = repl.do_replace(case, sp, rp, seed=spec.get('rng', 0))
+        res, num = repl.do_replace(case, sp, rp, seed=spec.get('rng', 0), replace_fraction=f)
     except Exception as e:
         return "replace_pattern_in_structure raised %r" % (e,)
     smap = repl.shared_map(sp0, rp0)
     s_only = [j for j in range(len(sp0.positions)) if j not in smap.values()]
     r_only = [i for i in range(len(rp0.positions)) if i not in smap]
-    M = len(case['planted'])
+    M = num
     n_new = M * len(r_only)
     surv = N - M * len(s_only)
     if len(res.positions) != surv + n_new:
@@ -42,23 +43,54 @@ def check(spec):
     # of (search coordinates + replacement-only coordinates), modulo lattice vectors
     union_pat = np.vstack([sp0.positions, rp0.positions[r_only]])
     used = set()
-    for tup, (rot, centre) in zip(case['planted'], case['poses']):
-        ideal_s = rot.apply(sp0.positions - sp0.positions.mean(axis=0)) + centre
+    for b in range(M):
+        blk = newpos[b * len(r_only):(b + 1) * len(r_only)]
         best = None
-        for b in range(M):
-            if b in used:
+        for mi, (tup, (rot, centre)) in enumerate(zip(case['planted'], case['poses'])):
+            if mi in used:
                 continue
-            blk = newpos[b * len(r_only):(b + 1) * len(r_only)]
+            ideal_s = rot.apply(sp0.positions - sp0.positions.mean(axis=0)) + centre
             pts = []
             for p in blk:
                 d = geo.frac(cell, p - centre)
                 pts.append(centre + (d - np.round(d)).dot(cell))
             dev = geo.best_rigid_fit(union_pat, np.vstack([ideal_s, np.array(pts)]))
             if best is None or dev < best[0]:
-                best = (dev, b)
+                best = (dev, mi)
         if best is None or best[0] > 4 * ATOL:
-            return "atoms inserted for match %r are not placed in the frame of the matched pattern (best proper rigid fit deviates %.4f)" % (tup, best[0] if best else -1)
+            return "atoms inserted for replaced match #%d are not placed in the frame of any matched pattern (best proper rigid fit deviates %.4f)" % (b, best[0] if best else -1)
         used.add(best[1])
+    return None
+
+
+def check_fresh(spec):
+    """The result depends only on the observable content of the structure: a structure that went through earlier operations
+    (replace, replicate, cell assignment) behaves like a freshly constructed object with the same arrays."""
+    from mofun import Atoms
+    case = repl.planted(spec['cell'], spec['pair'], spec['copies'], spec['seed'])
+    sp, rp = repl.patterns(spec['pair'])
+    S = case['structure']
+    with quiet():
+        try:
+            s1, _ = repl.do_replace(case, sp, sp.copy(), seed=1)          # a first (self) replacement
+            if spec['history'] == 'replicate':
+                s2 = s1.replicate(tuple(spec.get('repl', (1, 2, 1))))
+            else:
+                s2 = s1.copy()
+                s2.cell = np.asarray(s1.cell) * np.array([[1.0], [1.5], [1.0]])
+            fresh = Atoms(atom_types=np.array(s2.atom_types), positions=np.array(s2.positions), charges=np.array(s2.charges), groups=np.array(s2.groups),
+                          atom_type_elements=list(s2.atom_type_elements), atom_type_masses=list(s2.atom_type_masses),
+                          atom_type_labels=list(s2.atom_type_labels), cell=np.array(s2.cell))
+            r1, n1 = repl.do_replace(dict(structure=s2), sp, rp, seed=2)
+            r2, n2 = repl.do_replace(dict(structure=fresh), sp, rp, seed=2)
+        except Exception as e:
+            return "raised %r" % (e,)
+    if n1 != n2 or len(r1.positions) != len(r2.positions):
+        return "a structure with history %r gives %d matches / %d atoms, an equal fresh structure %d / %d" % (spec['history'], n1, len(r1.positions), n2, len(r2.positions))
+    if not np.allclose(r1.positions, r2.positions, atol=1e-8):
+        k = int(np.argmax(np.abs(r1.positions - r2.positions).max(axis=1)))
+        return "after %r the replacement places atom %d at %r, on an equal fresh structure at %r" % (spec['history'], k, list(np.round(r1.positions[k], 4)), list(np.round(r2.positions[k], 4)))
+    fr = geo.frac(np.asarray(s2.cell), r1.positions[len(s2.positions) - 0:]) if False else geo.frac(np.asarray(s2.cell), r1.positions)
     return None
 
 
@@ -87,6 +119,9 @@ def check_motion(spec):
 
 
 def replay(inp):
+    if inp.get('history'):
+        msg = check_fresh(inp)
+        return (msg is not None), (msg or 'history-independent')
     msg = check_motion(inp) if inp.get('relation') else check(inp)
     return (msg is not None), (msg or 'placement agrees')
 
@@ -95,7 +130,8 @@ REPLAY = {'placement': replay}
 
 
 def run(rec, tier, seed):
-    rec.rule = ("planted structures in 4 cells (incl. both tilt signs), copies straddling faces/edges/corners, pattern pairs with inserted atoms "
+    rec.rule = ("[+ partial replacement f=0.5; + history independence: replace / replicate / cell assignment before the replacement behaves like a "
+                "fresh equal structure] planted structures in 4 cells (incl. both tilt signs), copies straddling faces/edges/corners, pattern pairs with inserted atoms "
                 "(grow-shared, swap-element, disjoint, sym-grow, collinear-swap, single-swap); checks: every inserted atom inside the cell "
                 "(fractional in [0,1]), matched + inserted atoms form a proper rigid image of search + replacement coordinates modulo the "
                 "lattice (bound 4*atol), result invariant under a joint rigid motion of both patterns. distinct = specs")
@@ -105,13 +141,20 @@ def run(rec, tier, seed):
     for pi, pair in enumerate(pairs):
         for ci, cell in enumerate(cells):
             for s in range(nseed):
-                spec = dict(cell=cell, pair=pair, copies=3, seed=seed * 100 + pi * 11 + ci * 3 + s, rng=s)
+                spec = dict(cell=cell, pair=pair, copies=3, seed=seed * 100 + pi * 11 + ci * 3 + s, rng=s, f=1.0 if s % 2 == 0 else 0.5)
                 msg = check(spec)
                 rec.case(repr(sorted(spec.items())), sample=spec if len(rec.samples) < 2 else None, group='placement')
                 if msg:
                     rec.fail('placement', 'placement', "%s on %r" % (msg, spec), spec, 'C05/placement')
                 # joint-motion invariance is only meaningful when the matched frame is determined: a collinear / symmetric search
                 # pattern with off-axis replacement atoms leaves the azimuth of the inserted atoms undetermined (DESIGN C05)
+                if s == 0:
+                    for hist in ('replicate', 'cell'):
+                        sp3 = dict(cell=cell, pair=pair, copies=2, seed=seed * 100 + pi + ci, history=hist)
+                        msg = check_fresh(sp3)
+                        rec.case(repr(sorted(sp3.items())), group='history')
+                        if msg:
+                            rec.fail('placement', 'placement-history', "%s on %r" % (msg, sp3), sp3, 'C05/history-independence')
                 if s == 0 and pair not in ('grow-shared', 'sym-grow'):
                     for mo in (1, 2) if tier == 'quick' else (1, 2, 3, 4, 5, 6):
                         sp2 = dict(spec, motion=mo, relation=True)
